@@ -25,7 +25,7 @@ from . import common as C
 
 PID = "C04"
 META = {
-    "ready": False,
+    "ready": True,
     "category": "proof",
     "technique": "Lean 4 theorems about a model of the free list / marker / collection policy (mark soundness on cyclic heaps, collections anywhere in any operation list are invisible: refinement to a never-collected store) + edge/root tables regenerated from the Rust source and checked by `decide` + differential runs of generated allocation-heavy Steel programs on the real engine with a forced full collection at every n-th allocation",
     "level_text": "Proved for all heaps, root sets, operation lists and collection schedules (SteelVerif/C04/Props.lean): the mark phase marks every slot reachable from the roots (cycles included, worklist termination proved), a full or policy-triggered collection keeps every allocated reachable cell unchanged, allocate hands out a slot that was free, the minor collection never frees a slot to which a handle exists, and gc_transparent: for every list of alloc/write/read/add-root/drop-root operations with minor and full collections inserted at ANY positions every read equals the read from an abstract store that is never collected and never reuses a name. The marker's parameters are tables regenerated from closed.rs/cycles.rs/rvals.rs/vm.rs on every run; `decide` proves that BOTH copies of the traversal follow every value-holding field of every SteelVal variant and that Heap::mark / enumerate_stacks / live_functions / every allocation call site push every root class — EXCEPT the fields of ContinuationMark::Open and ClosedContinuation.current_frame's handler, which the traversal does not follow: for those the theorem is `mark_sound_full_partial` with the explicit hypothesis that what they hold is also reachable from the operand stack / frame list (true by the VM's open-mark protocol, not modelled); the full statement is proved false of the tables (edges_complete_*_fails). That the tables are all the edges (hand-written edgesSpecTable), the parallel work distribution, and the VM's choice of what is on the stack rest on the differential runs.",
@@ -103,15 +103,17 @@ def unwrap_expr(wraps, w):
 
 class Scen:
     """One scenario: text of a piece and the value it must return."""
-    def __init__(self, shape, kind, wraps, text, expected):
+    def __init__(self, shape, kind, wraps, text, expected, result_at=None):
         self.shape, self.kind, self.wraps, self.text, self.expected = shape, kind, wraps, text, expected
+        self.npieces = text.count("\n;;;---\n") + 1
+        self.result_at = self.npieces - 1 if result_at is None else result_at
 
     def label(self):
         return "%s/%s/%s" % (self.shape, self.kind, "+".join(self.wraps))
 
 
 SHAPES = ["global", "local", "argument", "closure", "cont_closed", "cont_open", "cont_open_tail", "handler",
-          "handler_macro", "dynwind", "tls", "thread", "thread_result", "channel", "parameter", "map_acc", "fold_acc", "transduce_acc",
+          "handler_macro", "dynwind", "tls", "hostroot", "thread", "thread_result", "channel", "parameter", "map_acc", "fold_acc", "transduce_acc",
           "vector_fill", "apply_args", "nested_defs", "cycle", "recycler"]
 
 
@@ -178,6 +180,12 @@ def scenario(rng, idx, shape, kind, wraps, churn):
         text = "(define t%d (make-tls %s))\n%s\n(define r1-%d %s)\n%s\n%s\n(list r1-%d %s)" % (
             idx, E, churn, idx, R("(get-tls t%d)" % idx), W("(get-tls t%d)" % idx, t2), churn, idx, R("(get-tls t%d)" % idx))
         exp = "(%d %d)" % (t1, t2)
+    elif shape == "hostroot":
+        # the host takes the value as a rooted value (SteelVal::as_rooted); the script forgets it; after the
+        # collections the host passes it back to a script function
+        text = (";;;host-root hr%d\n(define (rdhr%d w) (list %s))\n(define hr%d %s)\n;;;---\n(set! hr%d #f)\n%s\n0\n;;;---\n"
+                ";;;host-call rdhr%d\n;;;---\n;;;host-release") % (idx, idx, R("w"), idx, E, idx, churn, idx)
+        return Scen(shape, kind, wraps, text, "(%d)" % t1, result_at=2)
     elif shape == "thread":
         # the other thread keeps the object on its stack and waits; this thread collects and churns
         text = ("(define chs%d (channels/new))\n(define back%d (channels/new))\n"
@@ -318,8 +326,11 @@ def run_batch(programs, timeout):
 
 
 def header(mode, scens):
-    return ";; gc mode: %s\n" % (mode,) + "".join(";; piece %d [%s] must evaluate to %s\n" % (i + 1, s.label(), s.expected)
-                                                    for i, s in enumerate(scens))
+    out, at = ";; gc mode: %s\n" % (mode,), 1
+    for s in scens:
+        out += ";; piece %d [%s] must evaluate to %s\n" % (at + s.result_at, s.label(), s.expected)
+        at += s.npieces
+    return out
 
 
 def check_programs(ctx, items, stats, label, timeout=300):
@@ -346,8 +357,10 @@ def check_programs(ctx, items, stats, label, timeout=300):
             stale = (st[8] - prev_stale) if st else 0
             prev_stale = st[8] if st else prev_stale
             bad = []
+            at = 1
             for i, s in enumerate(scens):
-                got = lines[i + 1] if i + 1 < len(lines) else "<missing>"
+                got = lines[at + s.result_at] if at + s.result_at < len(lines) else "<missing>"
+                at += s.npieces
                 stats["evaluations"] += 1
                 stats["seen"].add((s.shape, s.kind, tuple(s.wraps), mode))
                 stats["by_shape"][s.shape] = stats["by_shape"].get(s.shape, 0) + 1
@@ -387,7 +400,7 @@ def minimise_and_report(ctx, text, scens, mode, bad, stale, stats, label):
         s = scens[i]
         solo = pre + "\n;;;---\n" + s.text
         res, rc, _ = run_batch([solo], 120)
-        got = res[0][0][1] if res and len(res[0][0]) > 1 else "<crash rc=%d>" % rc
+        got = res[0][0][1 + s.result_at] if res and len(res[0][0]) > 1 + s.result_at else "<crash rc=%d>" % rc
         st = res[0][1] if res else None
         ok = got.startswith("ok ") and got[3:].split("|")[-1] == s.expected
         if not ok or (st and st[8] > 0):
@@ -558,12 +571,12 @@ def run(ctx):
         for i in range(0, len(dl), per):
             t, s = gen_program(rng, min(per, len(dl) - i), ("every", 1), directed=dl[i:i + per])
             items.append((t, s, ("every", 1)))
-        nrand = 60 if ctx.quick() else 1500
+        nrand = 60 if ctx.quick() else 5000
         for i in range(nrand):
             mode = modes[i % len(modes)]
             t, s = gen_program(rng, per, mode)
             items.append((t, s, mode))
-    nexp = 12 if ctx.quick() else 150
+    nexp = 12 if ctx.quick() else 300
     for i in range(nexp):
         t, s = gen_program(rng, 2, ("explicit",), directed=None if i >= len(dl) // 8 else dl[i * 8:i * 8 + 2])
         items.append((t, s, ("explicit",)))
@@ -592,7 +605,8 @@ def run(ctx):
         "corpus_witnesses": stats.get("corpus", 0),
         "model_fields": stats.get("model_fields"), "model_fields_lost_by_tables": stats.get("model_lost"),
         "model_programs": stats.get("model_programs"), "model_reads": stats.get("model_reads"),
-        "hook_present": hook, "known_finding_hits": stats["known_hits"], "axioms": pr.get("axioms", {}), "proof_failures": ["%s: %s" % f for f in pr["failed"]],
+        "hook_present": hook, "known_finding_hits": stats["known_hits"],
+        "translator_extracted": out.strip().splitlines()[:7], "axioms": pr.get("axioms", {}), "proof_failures": ["%s: %s" % f for f in pr["failed"]],
     })
     ctx.assumptions = ["open continuation marks hold only values that are still on the operand stack (VM protocol, not modelled)",
                        "edgesSpecTable lists every value-holding field"]
